@@ -411,6 +411,7 @@ class ClsRef:
         self.cls = cls
         self.closure = closure
         self.vals = vals            # None: a module-level class (attributes evaluated lazily, once per interpreter)
+        self.over = set()           # names bound by an assignment *after* a def of the same name (`f = classmethod(f)`)
 
     def __call__(self, *args, **kwargs):
         o = Obj(self.cls)
@@ -574,7 +575,7 @@ class Ev:
             return o.attrs[name]
         k = o.klass
         clo = k.closure if k is not None else None
-        if after is None and k is not None and k.vals is not None and name in k.vals and name not in o.cls.methods:
+        if after is None and k is not None and k.vals is not None and name in k.vals and (name not in o.cls.methods or name in k.over):
             return self._unwrap(k.vals[name], k)
         chain = self.mro(o.cls)
         if after is not None and after in chain:
@@ -803,6 +804,7 @@ class Ev:
                 raise Undecided("nested class %s" % st.name)
             ref = ClsRef(self, nested, closure=env, vals={})
             body_env = {"__closure__": env}
+            defined = set()
             for b in st.body:
                 if isinstance(b, ast.Assign):
                     v = self.expr(b.value, body_env, func)
@@ -810,9 +812,14 @@ class Ev:
                         if isinstance(t, ast.Name):
                             body_env[t.id] = v
                             ref.vals[t.id] = v
+                            if t.id in nested.methods and t.id in defined:
+                                ref.over.add(t.id)
                 elif isinstance(b, (ast.FunctionDef, ast.Expr, ast.Pass)):
                     if isinstance(b, ast.FunctionDef) and b.name in nested.methods:
                         body_env[b.name] = FuncRef(self, nested.methods[b.name], closure=env)
+                        defined.add(b.name)
+                        ref.vals.pop(b.name, None)
+                        ref.over.discard(b.name)
                 else:
                     raise Undecided("class body statement %s" % type(b).__name__)
             env[st.name] = ref
@@ -830,7 +837,12 @@ class Ev:
         elif isinstance(st, ast.Import):
             for a in st.names:
                 top = a.name.split(".")[0]
-                if top in EXT_OK:
+                if a.name in self.ext:
+                    # a stand-in supplied by the rule (an optional dependency: present, or absent = ImportError)
+                    if isinstance(self.ext[a.name], BaseException):
+                        raise PyRaise("ImportError", "No module named %r" % a.name)
+                    env[a.asname or top] = self.ext[a.name]
+                elif top in EXT_OK:
                     env[a.asname or top] = importlib.import_module(a.name if a.asname else top)
                 else:
                     env[a.asname or top] = _External(a.name)
@@ -1053,7 +1065,7 @@ class Ev:
             if isinstance(o, _Super):
                 return self.obj_getattr(o.obj, e.attr, after=o.after)
             if isinstance(o, ClsRef):
-                if o.vals is not None and e.attr in o.vals and e.attr not in o.cls.methods:
+                if o.vals is not None and e.attr in o.vals and (e.attr not in o.cls.methods or e.attr in o.over):
                     return self._unwrap(o.vals[e.attr], o)
                 m = self.find_method(o.cls, e.attr)
                 if m is not None:
@@ -1122,6 +1134,9 @@ class Ev:
             if fn is setattr and args and isinstance(args[0], Obj):
                 args[0].attrs[args[1]] = args[2]
                 return None
+            if fn in (isinstance, type) and args and isinstance(args[0], AbsVal):
+                # a row stands for every value of its JSON kind (ints and floats alike): a Python class test would split it
+                raise Undecided("class test on an abstract operand")
             if fn is isinstance and len(args) == 2 and (isinstance(args[1], ClsRef) or (isinstance(args[1], tuple) and any(isinstance(x, ClsRef) for x in args[1]))):
                 want = args[1] if isinstance(args[1], tuple) else (args[1],)
                 for w in want:
